@@ -154,6 +154,24 @@ def cases(kind, only=None):
     return out
 
 
+def summary_for_property(prop):
+    t0 = time.time()
+    out = {'mutants': 0, 'mutants_detected': 0, 'benign': 0, 'benign_silent': 0, 'seeded': 0, 'seeded_detected': 0, 'problems': [], 'cases': []}
+    for kind in ('mutants', 'benign', 'seeded'):
+        for patch, meta in cases(kind, prop):
+            st, detail = run_case(patch, meta)
+            out['cases'].append({'patch': os.path.relpath(patch, VERIF), 'kind': kind, 'status': st})
+            if st == 'skipped':
+                continue
+            out[kind] += 1
+            if st == 'pass':
+                out[{'mutants': 'mutants_detected', 'benign': 'benign_silent', 'seeded': 'seeded_detected'}[kind]] += 1
+            else:
+                out['problems'].append('%s: %s' % (os.path.basename(patch), detail[:160]))
+    out['wall_s'] = round(time.time() - t0, 1)
+    return out
+
+
 def main(argv):
     import argparse
     ap = argparse.ArgumentParser()
